@@ -177,3 +177,6 @@ def run(env, rep):
     # ------------------------------------------------------------------ R5 what the decoder refuses
     if wants(rep, "C04.R5"):
         amf0.check_decoder_refusals(env, rep, "C04.R5")
+    # ------------------------------------------------------------------ R6 the encoder writes every part of a value (C12 R1: grammar = specification)
+    if wants(rep, "C04.R6"):
+        amf0.check_encoder_grammar(env, rep, "C04.R6", amf0.load_spec())
